@@ -64,11 +64,32 @@ def check_batch(run, b, nrand):
             for op, payload in (("SE", json.dumps(PP.to_json(sch, t, v))), ("DE", json.dumps(PP.to_json(sch, t, v, True))), ("SD", canon.hex()), ("DD", canon.hex())):
                 lines.append("%s %s %s" % (op, name, payload))
             meta.append((name, v, canon, vi))
+    # a SECOND DynamicSchema object lives in the process and is used first: it comes from another revision of
+    # the schema in which the enums of this batch keep their names but have other widths
+    other = None
+    try:
+        enums = [d for d in b.decls if d["kind"] == "enum"][:4]
+        if enums:
+            dd = [shapes.mk_enum(e["name"], 255 if max(v for _, v in e["values"]) <= 7 else 1) for e in enums]
+            dd.append(shapes.mk_struct("DecoyUse", [("n", 0, ("u", 8))] + [("e%d" % k, k + 1, ("enum", e["name"])) for k, e in enumerate(enums)]))
+            dd.append(shapes.mk_struct("Decoy", [("v", 0, ("u", 8))]))
+            dd.append({"kind": "impl", "protocol": "can", "type": "Decoy", "name": None, "items": [("field", "id", 1), ("field", "bus", ("s", "dk"))]})
+            dsch = S.Sch(dd)
+            other = os.path.join(b.dir, "other.bin")
+            cpp.reflection_binary(CC.parse(S.print_schema(dd)).unwrap(), other)
+            v = {"n": 9}
+            for k, e in enumerate(enums):
+                v["e%d" % k] = max(x for _, x in dsch.enums[e["name"]])
+            open(other + ".cmds", "w").write("DecoyUse %s %s\n" % (ref.encode(dsch, "DecoyUse", v).hex(), json.dumps(PP.to_json(dsch, ("struct", "DecoyUse"), v, True))))
+            run.count("batches_with_another_schema_revision_used_first")
+    except Exception as e:
+        run.inconclusive_because("cannot prepare the second schema object: %s: %s" % (type(e).__name__, e))
+        other = None
     # every other batch: the reflection binary is loaded twice into the same DynamicSchema object
     reload = b.bi % 2 == 1
     if reload:
         run.count("batches_with_the_reflection_loaded_twice")
-    outputs, crashes = cpp.run(b.binary, lines, b.dir, reflection=b.refl, reload=reload)
+    outputs, crashes = cpp.run(b.binary, lines, b.dir, reflection=b.refl, other_reflection=other, reload=reload)
     if PP.report_crashes(run, crashes, lines, b.case, "static/dynamic codec"):
         return
     sigs = {n: shapes.shape_sig(sch, n) for n in sch.structs}
